@@ -3,19 +3,34 @@ from vlib import common
 
 GO = dict(module="core", pkg="internal/frag", pkgname="frag",
           files={"zz_verif_c05_test.go": "c05/c05_test.go"}, run="TestVerifC05")
+GO_CLIENT = dict(module="core", pkg="client", pkgname="client",
+                 files={"zz_verif_c05_send_test.go": "c05/c05_send_client_test.go",
+                        "zz_verif_c05_send_common_test.go": "_gen/c05_send_common_client_test.go"}, run="TestVerifC05SendClient")
+GO_SERVER = dict(module="core", pkg="server", pkgname="server",
+                 files={"zz_verif_c05_send_test.go": "c05/c05_send_server_test.go",
+                        "zz_verif_c05_send_common_test.go": "_gen/c05_send_common_server_test.go"}, run="TestVerifC05SendServer")
+GO_ALL = [GO, GO_CLIENT, GO_SERVER]
 PARAMS_NAME = "ParamsC05"
-HEADER = "From Hy Require Import lib.Harness model.C05_Frag corr.C05_Corr.\nFrom Coq Require Import ZArith.\nLocal Open Scope N_scope.\n"
+HEADER = "From Hy Require Import lib.Harness model.C05_Frag model.C05_Send corr.C05_Corr.\nFrom Coq Require Import ZArith.\nLocal Open Scope N_scope.\n"
 RULE = ("seeded generator: FragUDPMessage on boundary sizes (payload budget-1/budget/budget+1, 255*budget, 255*budget+1, 65535; "
         "address lengths 1,63,64,255,2048; limits at/below the header size); Defragger histories (2-4 messages, "
         "permutations, duplicates, drops, interleavings; exhaustive permutations for <=4 fragments); Serialize/Parse round trips and "
-        "mutated/truncated wire bytes. Non-trivial = the message is actually split (>=2 fragments), or the history emits/withholds "
+        "mutated/truncated wire bytes; COLLIDING packet ids (distinct ids equal in the low byte / high byte, 256, 512, k*256 apart, "
+        "byte-swapped, one bit apart, 0/255/256/65535) with equal and different fragment counts, in histories where the fragments that "
+        "would expose a mix are lost (A0 B1 A2); SEND PATHS (client udpConn.Send and server receiveLoop/sendMessageAutoFrag over a fake "
+        "datagram channel): histories of 3-7 messages under a limit that is constant / growing / shrinking / oscillating / stepping "
+        "down and back / random / degenerate (<= header, 0, negative), message sizes placed relative to the limits (between lowest and "
+        "highest, above all, L, L+1, > 255 fragments at the low limit only, around the 4096-byte send buffer), limit change or "
+        "connection error in the middle of one send; a real Defragger behind the channel. Non-trivial = the message is actually split (>=2 fragments), or the history emits/withholds "
         "a multi-fragment message, or the parser rejects. Distinct = distinct JSON case.")
 ASSUMPTIONS = [
     "quic-go reports a usable MaxDatagramPayloadSize and sends datagrams at or under it whole (library, not modelled)",
     "packet IDs of messages in flight are distinct (hypothesis of C05_no_chimera, as in the property text)",
+    "send paths: the QUIC connection is an oracle (per SendMessage call: a datagram limit L - accept <= L, refuse > L with DatagramTooLargeError{L} - or another error); the random packet id is an oracle argument in 1..65535; C05_send_hist_delivers assumes the drawn ids pairwise distinct and the limit constant during each single send",
 ]
-TRUSTED = ["modelled rather than verified: core/internal/frag/frag.go and the UDPMessage codec of core/internal/protocol/proxy.go (hand transcription in coq/model/C05_Frag.v)"]
-PER_SHARD = 50
+TRUSTED = ["modelled rather than verified: core/internal/frag/frag.go and the UDPMessage codec of core/internal/protocol/proxy.go (hand transcription in coq/model/C05_Frag.v)",
+           "modelled rather than verified: udpConn.Send (core/client/udp.go), sendMessageAutoFrag (core/server/udp.go) and udpIOImpl.SendMessage (hand transcription in coq/model/C05_Send.v; the model has no state between two sends because the code has none - the differential run over limit histories is what ties this to /repo)"]
+PER_SHARD = 104  # 12 shards = one round on the 12 evaluation workers (each coqc start + first literal costs ~7 s)
 EXTRA_TARGETS = ["corr/C05_Corr.vo"]
 
 
@@ -102,6 +117,8 @@ def gen(rng, tier):
                 rng.shuffle(blocks[j])
                 order += blocks[j]
         cases.append({"k": "seq", "msgs": msgs, "order": order[:400]})
+    cases += gen_collide(rng, scale)
+    cases += gen_send(rng, scale)
     # --- wire format
     for _ in range(150 * scale):
         al = rng.choice([0, 1, 63, 64, 300, 2048, 2049])
@@ -118,6 +135,200 @@ def gen(rng, tier):
             b[8] = rng.choice([0, 1, 2, 3, 0x40, 0x41, 0x48, 0x80, 0xc0, len(b) - 9, max(0, len(b) - 10)]) % 256
         cases.append({"k": "parse", "hex": bytes(b).hex()})
     return cases
+
+
+EDGE_PIDS = [0, 1, 255, 256, 257, 511, 512, 0x7fff, 0x8000, 0xff00, 0xfffe, 0xffff]
+
+
+def pid_family(rng):
+    """2-3 DISTINCT packet ids that are 'close' in some byte-wise sense: equal low byte (differ by 256, 512, k*256),
+    equal high byte, byte-swapped, differing in one bit, around 0 / 255 / 256 / 65535."""
+    base = rng.choice(EDGE_PIDS + [rng.randrange(2**16) for _ in range(4)])
+    mode = rng.randrange(8)
+    if mode == 0:
+        cand = [base, (base + 256) % 65536, (base + 512) % 65536]
+    elif mode == 1:
+        cand = [base, (base + 256 * rng.randrange(1, 256)) % 65536, (base + 256 * rng.randrange(1, 256)) % 65536]
+    elif mode == 2:   # same high byte, different low byte
+        cand = [base, (base & 0xff00) | ((base + rng.randrange(1, 256)) & 0xff), (base & 0xff00) | ((base + 1) & 0xff)]
+    elif mode == 3:   # byte-swapped / shifted by 8 either way
+        cand = [base, ((base << 8) | (base >> 8)) & 0xffff, (base << 8) & 0xffff, base >> 8]
+    elif mode == 4:   # one bit apart
+        cand = [base, base ^ (1 << rng.randrange(16)), base ^ (1 << rng.randrange(8, 16))]
+    elif mode == 5:   # the low byte only / the high byte only / both
+        cand = [base, base & 0xff, base & 0xff00, base | 0xff00]
+    elif mode == 6:
+        cand = [0, 256, 65535, 255, 0xff00][rng.randrange(3):]
+    else:
+        cand = [base, (base + 1) % 65536, (base + 0x100) % 65536, (base + 0x8000) % 65536]
+    out = []
+    for p in cand:
+        if p not in out:
+            out.append(p)
+    while len(out) < 2:
+        p = (out[0] + 256 * rng.randrange(1, 256)) % 65536
+        if p not in out:
+            out.append(p)
+    rng.shuffle(out)
+    return out[:rng.choice([2, 2, 3])]
+
+
+def gen_collide(rng, scale):
+    """Interleaved messages of one session whose packet ids are distinct but collide in one byte (low byte equal:
+    ids 256/512/k*256 apart; high byte equal; 0/255/256/65535), with equal and with different fragment counts.
+    Histories in which the fragments that would expose a mix are LOST (A0 B1 A2 with A1/B0 lost), so a
+    reassembler that identifies a message by less than (full packet id, count) emits a payload nobody sent."""
+    out = []
+    for it in range(90 * scale):
+        pids = pid_family(rng)
+        nm = len(pids)
+        al = rng.choice([1, 4, 63, 64])
+        budget = rng.randint(1, 9)
+        nfr = rng.choice([2, 3, 3, 4, 5, 8, 40, 255])
+        equal = rng.random() < 0.7
+        sid = rng.choice([0, 1, 7, 2**32 - 1])
+        msgs = []
+        for j in range(nm):
+            n = nfr if (equal or j == 0) else rng.choice([max(2, nfr - 1), nfr + 1 if nfr < 255 else 254, 2, 3])
+            dl = max(budget + 1, budget * n - rng.randrange(budget))
+            m = mk(rng, al, dl, pid=pids[j], maxv=hdr(al) + budget)
+            m["sid"] = sid
+            msgs.append(m)
+        ns = [max(1, -(-m["dl"] // budget)) for m in msgs]
+        mode = it % 6
+        order = []
+        if mode == 0:
+            # slot i is taken from message i mod nm, every other fragment is lost: A0 B1 A2 ...
+            order = [[i % nm, i] for i in range(max(ns)) if i < ns[i % nm]]
+        elif mode == 1:
+            # A without one fragment, then B's fragment for exactly that slot (and possibly the rest of B)
+            hole = rng.randrange(ns[0])
+            order = [[0, i] for i in range(ns[0]) if i != hole]
+            rng.shuffle(order)
+            order.append([1, hole % ns[1]])
+            if rng.random() < 0.5:
+                order += [[1, i] for i in range(ns[1]) if i != hole % ns[1]]
+        elif mode == 2:
+            # random owner per slot, random arrival order, nothing else arrives
+            order = [[rng.randrange(nm), i] for i in range(max(ns))]
+            order = [o for o in order if o[1] < ns[o[0]]]
+            rng.shuffle(order)
+        elif mode == 3:
+            # every message loses a random subset; the survivors interleave at random, with duplicates
+            for j in range(nm):
+                keep = [i for i in range(ns[j]) if rng.random() < 0.6] or [0]
+                order += [[j, i] for i in keep]
+            order += [list(rng.choice(order)) for _ in range(rng.randint(0, 3))]
+            rng.shuffle(order)
+        elif mode == 4:
+            # B complete in the middle of A (A must restart or finish on its own, never absorb B)
+            half = ns[0] // 2
+            order = [[0, i] for i in range(half)] + [[1, i] for i in range(ns[1])] + [[0, i] for i in range(half, ns[0])]
+        else:
+            # complementary halves: even slots of A, odd slots of B, then the other halves in reverse
+            order = [[0, i] for i in range(0, ns[0], 2)] + [[1, i] for i in range(1, ns[1], 2)]
+            if rng.random() < 0.5:
+                order += [[1, i] for i in range(0, ns[1], 2)][::-1] + [[0, i] for i in range(1, ns[0], 2)][::-1]
+        out.append({"k": "seq", "msgs": msgs, "order": order[:400], "cls": "collide"})
+    return out
+
+
+BUF = 4096  # protocol.MaxUDPSize: the senders' buffer (the harness reports the real one, the model uses that)
+
+
+def gen_send(rng, scale):
+    """Histories of sends on one UDP session through a datagram channel whose limit varies over the history
+    (constant / growing / shrinking / oscillating / step down and back / random; tiny and non-positive limits),
+    message sizes placed relative to the limits of the history (fits all; between the lowest and the highest
+    limit; above all; exactly L and L+1; needs > 255 fragments at the low limit only; larger than the send buffer),
+    and per-call behaviour inside one send (limit shrinks / grows / connection fails after j calls).  Every history
+    runs on the client (udpConn.Send) and on the server (receiveLoop -> sendMessageAutoFrag)."""
+    out = []
+    pats = ["constant", "growing", "shrinking", "oscillating", "stepdown", "random", "degenerate", "real"]
+    for it in range(56 * scale):
+        pat = pats[it % len(pats)]
+        al = rng.choice([1, 5, 14, 63, 64, 200])
+        h = hdr(al)
+        n = rng.randint(3, 7)
+        if pat == "real":
+            lo, hi = rng.choice([(700, 1200), (1200, 1400), (1150, 1252), (500, 1452)])
+        else:
+            lo = h + rng.randint(1, 12)
+            hi = lo + rng.randint(1, 40)
+        if pat == "constant":
+            lims = [rng.choice([lo, hi])] * n
+        elif pat == "growing":
+            lims = sorted(rng.randint(lo, hi) for _ in range(n))
+            lims[0], lims[-1] = lo, hi
+        elif pat == "shrinking":
+            lims = sorted((rng.randint(lo, hi) for _ in range(n)), reverse=True)
+            lims[0], lims[-1] = hi, lo
+        elif pat == "oscillating":
+            lims = [hi if i % 2 == 0 else lo for i in range(n)]
+            if rng.random() < 0.5:
+                lims = lims[1:] + [lims[0]]
+        elif pat in ("stepdown", "real"):
+            k = rng.randint(1, n - 2)
+            k2 = rng.randint(k + 1, n)
+            lims = [hi] * k + [lo] * (k2 - k) + [rng.choice([hi, hi + 200])] * (n - k2)
+        elif pat == "random":
+            lims = [rng.randint(lo, hi) for _ in range(n)]
+        else:  # degenerate limits: at / below the header size, zero, negative, then usable again
+            lims = [rng.choice([hi, h, h - 1, 0, -3, 1, h + 1, lo]) for _ in range(n)]
+            lims[0] = hi
+        mlo, mhi = min(lims), max(lims)
+
+        def size_for(L, kind):
+            b = max(1, L - h)
+            if kind == "small":
+                return rng.randint(1, max(1, min(lims + [lo]) - h))
+            if kind == "exact":
+                return max(1, L - h)
+            if kind == "plus1":
+                return max(1, L - h + 1)
+            if kind == "between":
+                return max(1, rng.randint(mlo - h + 1, max(mlo - h + 1, mhi - h)))
+            if kind == "above":
+                return max(1, mhi - h + rng.randint(1, 3 * max(1, mhi - h)))
+            if kind == "many":   # > 255 fragments under the lowest limit, <= 255 under the highest
+                return min(3900, 255 * max(1, mlo - h) + rng.randint(1, 40))
+            if kind == "edge255":
+                return min(3900, 255 * b + rng.choice([-1, 0, 1]))
+            return rng.randint(BUF - h - 2, BUF)   # around / above the send buffer
+        steps = []
+        same_addr = rng.random() < 0.6
+        aa, ab = rng.randrange(256), rng.randrange(256)
+        for i in range(n):
+            L = lims[i]
+            kinds = ["small", "exact", "plus1", "between", "between", "above", "above", "above", "many", "edge255", "buf"]
+            if pat == "real":
+                kinds = ["small", "between", "above", "above", "plus1", "buf"]
+            kind = rng.choice(kinds)
+            if i > 0 and lims[i] < lims[i - 1] and rng.random() < 0.7:
+                kind = rng.choice(["above", "above", "between"])   # an oversized message right after the limit shrank
+            dl = max(1, min(BUF, size_for(L, kind)))
+            resp = [[0, L]]
+            r = rng.random()
+            if r < 0.08:
+                j = rng.randint(1, 4)
+                resp = [[0, L]] * j + [[0, max(h, L - rng.randint(1, 10))]]       # limit shrinks inside the send
+            elif r < 0.14:
+                j = rng.randint(1, 4)
+                resp = [[0, L]] * j + [[0, L + rng.randint(1, 50)]]                # grows inside the send
+            elif r < 0.20:
+                j = rng.randint(0, 4)
+                resp = [[0, L]] * j + [[1, 0]]                                      # connection error at call j
+            elif r < 0.23:
+                j = rng.randint(1, 3)
+                resp = [[0, L]] * j + [[1, 0]] + [[0, L]]                           # one transient error
+            if not same_addr:
+                aa, ab = rng.randrange(256), rng.randrange(256)
+            steps.append({"al": al, "aa": aa, "ab": ab, "dl": dl, "da": rng.randrange(256), "db": rng.randrange(256),
+                          "resp": resp})
+        sid = rng.choice([0, 1, 7, 2**32 - 1, rng.randrange(2**32)])
+        for side in ("client", "server"):
+            out.append({"k": "send", "side": side, "sid": sid, "pat": pat, "steps": steps})
+    return out
 
 
 def spec_term(m):
@@ -166,6 +377,17 @@ def to_coq(c, o):
         return "CWire %s %d%%nat %s %d%%nat %s %s" % (spec_term(c["m"]), c["buf"], zlit(o["n"]), o["hsz"], dg, pres(o))
     if k == "parse":
         return "CParse %s %s" % (common.coq_bytes(bytes.fromhex(c["hex"])), pres(o))
+    if k == "send":
+        if any(so.get("panic") for so in o["steps"]) or len(o["steps"]) != len(c["steps"]):
+            return None
+        steps, obs = [], []
+        for st, so in zip(c["steps"], o["steps"]):
+            resp = "[" + ";".join("RFail" if r[0] == 1 else "RLim (%d)%%Z" % r[1] for r in st["resp"]) + "]"
+            np = so["calls"][1][1] if len(so["calls"]) >= 2 else 1   # the random packet id is an oracle: take the observed one
+            steps.append("(mkSS %d %d %d %d %d %d %s %d)" % (st["al"], st["aa"], st["ab"], st["dl"], st["da"], st["db"], resp, np))
+            calls = "[" + ";".join("[" + ";".join("(%d)" % x for x in call) + "]" for call in so["calls"]) + "]%Z"
+            obs.append("(mkSO %s (%d)%%Z (%d)%%Z %s)" % (calls, so["ret"], so["retL"], ll(so["emits"])))
+        return "CSend %d %d%%nat [%s] [%s]" % (c["sid"], o.get("buf") or BUF, ";".join(steps), ";".join(obs))
     return None
 
 
@@ -175,7 +397,10 @@ def klass(c, o):
         n = len(o.get("frags") or [])
         return "frag:" + ("panic" if o.get("panic") else "discard" if n == 0 else "whole" if n == 1 else "split<=8" if n <= 8 else "split>8")
     if k == "seq":
-        return "seq:emits=%d" % min(3, len(o.get("emits") or []))
+        return "seq:%semits=%d" % ("collide:" if c.get("cls") == "collide" else "", min(3, len(o.get("emits") or [])))
+    if k == "send":
+        nf = sum(1 for so in o.get("steps") or [] if len(so["calls"]) >= 2)
+        return "send:%s:%s:%s" % (c["side"], c.get("pat"), "fragmented" if nf else "whole-only")
     if k == "wire":
         return "wire:" + ("short-buffer" if o.get("n", 0) < 0 else "roundtrip" if "pm" in o else "rejected")
     return "parse:" + ("ok" if "pm" in o else str(o.get("perr")))
@@ -187,6 +412,8 @@ def nontrivial(c, o):
         return len(o.get("frags") or []) >= 2 or len(o.get("frags") or []) == 0
     if k == "seq":
         return len(c["order"]) >= 2
+    if k == "send":
+        return any(len(so["calls"]) >= 2 for so in o.get("steps") or [])
     if k == "wire":
         return "pm" in o
     return True
@@ -202,6 +429,65 @@ def fingerprint(c, o):
     return None
 
 
+def group_of(c):
+    return 0 if c["k"] != "send" else 1 if c["side"] == "client" else 2
+
+
+def make_send_common():
+    """Instantiate the shared send-path harness file for the two packages (same mechanism as common.make_util)."""
+    import os
+    tmpl = open(os.path.join(common.VERIF, "harness", "go", "c05", "c05_send_common_test.go.tmpl")).read()
+    d = os.path.join(common.VERIF, "harness", "go", "_gen")
+    os.makedirs(d, exist_ok=True)
+    for pkg in ("client", "server"):
+        p = os.path.join(d, "c05_send_common_%s_test.go" % pkg)
+        text = tmpl.replace("__PKG__", pkg)
+        if not os.path.exists(p) or open(p).read() != text:
+            with open(p, "w") as f:
+                f.write(text)
+
+
+def run_go_all(ctx, cases, tag="main", race=False):
+    """Runs the three harnesses (internal/frag, client, server) in parallel.
+    Returns (ok, outs aligned with cases (None where missing), params of the frag harness, logs)."""
+    from concurrent.futures import ThreadPoolExecutor
+    make_send_common()
+    groups, idx = [[], [], []], [[], [], []]
+    for i, c in enumerate(cases):
+        g = group_of(c)
+        groups[g].append(c)
+        idx[g].append(i)
+    outs = [None] * len(cases)
+
+    def one(g):
+        if not groups[g] and g != 0:
+            return True, [], None, ""
+        return common.run_go_cases(ctx, GO_ALL[g], groups[g], tag="%s_%d" % (tag, g), race=race and g != 0)
+
+    with ThreadPoolExecutor(max_workers=3) as ex:
+        res = list(ex.map(one, range(3)))
+    ok, logs, params = True, [], None
+    for g, (gok, gouts, gparams, glog) in enumerate(res):
+        if not gok:
+            ok = False
+            logs.append("[%s] %s" % (GO_ALL[g]["pkg"], glog[-2500:]))
+        if len(gouts) == len(groups[g]):
+            for i, o in zip(idx[g], gouts):
+                outs[i] = o
+        if g == 0:
+            params = gparams
+    return ok, outs, params, "\n".join(logs)
+
+
+def violations_of(cases, outs):
+    v = []
+    for c, o in zip(cases, outs):
+        if o is not None and o.get("ok") is False:
+            v.append({"what": "%s: %s" % (c.get("k") + ("/" + c["side"] if c.get("k") == "send" else ""), o.get("why")),
+                      "replay": {"case": c, "impl": o}, "fingerprint": fingerprint(c, o), "found_input": True})
+    return v
+
+
 def search(ctx, disagreeing):
     """Property-directed search on the implementation alone (no model): more seeds."""
     import random
@@ -209,19 +495,96 @@ def search(ctx, disagreeing):
     for s in range(3):
         rng = random.Random(ctx.seed * 1000 + s + 17)
         cases = gen(rng, "quick")
-        ok, outs, _, log = common.run_go_cases(ctx, GO, cases, tag="search%d" % s)
-        for c, o in zip(cases, outs):
-            if o.get("ok") is False:
-                found.append({"what": "%s: %s" % (c["k"], o.get("why")), "replay": {"case": c, "impl": o},
-                              "fingerprint": fingerprint(c, o), "found_input": True})
+        ok, outs, _, log = run_go_all(ctx, cases, tag="search%d" % s)
+        found = violations_of(cases, outs)
         if found:
             break
     return found
 
 
 def run(ctx):
-    import sys
-    return common.run_case_check(ctx, sys.modules[__name__])
+    """Three Go packages are exercised (internal/frag, client, server), so C05 has its own run(): the pieces of
+    vlib/common.py, same decision rule as common.run_case_check."""
+    import json
+    import random
+    import time
+    rng = random.Random(ctx.seed)
+    cases = gen(rng, ctx.tier)
+    violations = []
+    t0 = time.time()
+    ok, outs, params, golog = run_go_all(ctx, cases)
+    ctx.say("go harnesses: %d cases in %.1fs" % (len(cases), time.time() - t0))
+    if not ok:
+        ctx.say("Go harness failed:\n" + golog[-3000:])
+        violations.append({"what": "tie broken: Go harness for C05 did not build/run against the current tree (%s)" % golog.strip()[-400:],
+                           "replay": {"broken": "go harness", "log": golog[-4000:]}, "found_input": False, "fingerprint": None})
+    if ctx.tier != "quick" and ok:
+        # the send-path harnesses once more under the race detector (server side runs the real receive loop in a goroutine)
+        sc = [c for c in cases if c["k"] == "send"][:200]
+        rok, routs, _, rlog = run_go_all(ctx, sc, tag="race", race=True)
+        ctx.say("send-path harnesses under -race: %s" % ("ok" if rok else "FAILED"))
+        if not rok:
+            violations.append({"what": "send-path harness fails under -race: " + rlog.strip()[-400:],
+                               "replay": {"broken": "race", "log": rlog[-4000:]}, "found_input": False, "fingerprint": None})
+    if params is not None:
+        if common.write_params(PARAMS_NAME, [tuple(p) for p in params]):
+            ctx.say("Params changed -> rebuilding dependants")
+    proof_ok, pinfo = common.proof_stage(ctx, ctx.pid, extra_targets=EXTRA_TARGETS)
+    if not proof_ok:
+        ctx.say("PROOF STAGE BROKEN: " + json.dumps({k: pinfo[k] for k in pinfo if k != "theorems"})[:3000])
+    pairs = [(i, c, o) for i, (c, o) in enumerate(zip(cases, outs)) if o is not None]
+    mism, corr_ok, corr_err, compared = [], True, "", 0
+    if pairs:
+        terms, idxmap = [], []
+        for i, c, o in pairs:
+            t = to_coq(c, o)
+            if t is not None:
+                terms.append(t)
+                idxmap.append(i)
+        compared = len(terms)
+        t1 = time.time()
+        eok, mm, err = common.eval_cases(ctx, "cases", HEADER, terms, PER_SHARD)
+        ctx.say("coq evaluation of %d cases: %.1fs" % (len(terms), time.time() - t1))
+        if not eok:
+            corr_ok, corr_err = False, err
+            ctx.say("CORRESPONDENCE EVALUATION FAILED: " + err)
+        mism = [idxmap[j] for j in mm]
+    hist, nontriv = {}, set()
+    for i, c, o in pairs:
+        k = klass(c, o)
+        hist[k] = hist.get(k, 0) + 1
+        if nontrivial(c, o):
+            nontriv.add(json.dumps(c, sort_keys=True))
+    violations += violations_of([c for _, c, _ in pairs], [o for _, _, o in pairs])
+    impl_bad = any(v.get("found_input") for v in violations)
+    broken = []
+    if not proof_ok:
+        broken.append("proof obligation (%s)" % pinfo.get("broken_at", pinfo.get("forbidden", "assumptions")))
+    if mism:
+        broken.append("correspondence C05_Corr on %d case(s)" % len(mism))
+    if not corr_ok:
+        broken.append("correspondence evaluation (%s)" % corr_err[:200])
+    if broken and not impl_bad:
+        found = search(ctx, [cases[i] for i in mism[:20]]) or []
+        if found:
+            violations += found
+        else:
+            violations.append({
+                "what": "no longer shown to hold: " + "; ".join(broken),
+                "replay": {"broken": broken, "proof": {k: pinfo.get(k) for k in ("broken_at", "build_log_tail", "forbidden", "theorems")},
+                           "disagreeing_cases": [{"case": cases[i], "impl": outs[i]} for i in mism[:10]]},
+                "fingerprint": None, "found_input": False})
+    elif mism and impl_bad:
+        ctx.say("model/implementation disagree on %d case(s) (implementation also violates the property directly)" % len(mism))
+    samples = [{"case": c, "impl": {k: v for k, v in o.items() if k != "i"}} for _, c, o in pairs[:2]]
+    for kind in ("frag", "seq", "send"):
+        for _, c, o in pairs:
+            if c["k"] == kind and nontrivial(c, o) and len(json.dumps(o)) < 6000:
+                samples.append({"case": c, "impl": {k: v for k, v in o.items() if k != "i"}})
+                break
+    cov = {"evaluations": len(cases), "distinct_nontrivial": len(nontriv), "rule": RULE, "samples": samples,
+           "traces_validated_against_impl": compared, "model_impl_disagreements": len(mism), "input_classes": hist}
+    return common.finish(ctx, pinfo, cov, violations, ASSUMPTIONS, trusted_extra=TRUSTED)
 
 
 def replay(ctx, path):
@@ -231,15 +594,18 @@ def replay(ctx, path):
     if not c:
         print("replay file names a broken obligation/correspondence, no concrete input:", r["what"])
         return 1
-    ok, outs, _, log = common.run_go_cases(ctx, GO, [c], tag="replay")
+    make_send_common()
+    ok, outs, _, log = common.run_go_cases(ctx, GO_ALL[group_of(c)], [c], tag="replay")
     print(json.dumps(outs, indent=1))
     return 0 if outs and outs[0].get("ok") else 1
 
 LEVEL_TEXT = ("Machine-checked Coq theorems over a statement-by-statement Gallina model of FragUDPMessage, Defragger.Feed and the "
               "UDPMessage codec: for every message, limit and fragment history (no bound on sizes or lengths) the splitter never panics, "
               "every fragment fits, <=255 fragments or discard (exact iff), any arrival order with duplicates reassembles to the original, "
-              "no chimera under distinct packet ids, parse.serialize = id. The model is tied to /repo on every run by regenerated "
-              "constants and a differential run of the Go code against the model on ~1000 boundary-directed cases (vm_compute in the kernel).")
+              "no chimera under distinct packet ids, parse.serialize = id; send paths: whole message first, fragmentation only after a too-large refusal "
+              "and only against the limit that refusal reported, stop at the first error, and for every history of limits (constant during each send) "
+              "the far-side Defragger emits exactly the messages that fit, byte-identical. The model is tied to /repo on every run by regenerated "
+              "constants and a differential run of the Go code (internal/frag, client, server) against the model on ~1200 boundary-directed cases (vm_compute in the kernel).")
 LEVEL_NOTE = ("Trusted: Coq kernel + vm_compute; hand-written model (tie is sampled differential testing + regenerated Params); python/Go glue. "
               "No axioms (all theorems closed under the global context). Not proved: quic-go datagram size reporting; packet-id distinctness is a hypothesis.")
 TECHNIQUE = "Coq proof (induction/invariant over fragment histories) on a hand-written model + differential correspondence check in vm_compute"
